@@ -318,6 +318,12 @@ def opUpdateWith (format noSnap : Bool) : Rd String := do
   if kTok != "K" then throw "expected K"
   let crashTok ← tok
   let crashAt : Option Nat := crashTok.toNat?
+  -- optional: records run through `run_script` on the same runner before the update
+  let pre : List Str ← (do
+    match (← get) with
+    | "P" :: ts => set ts; listOf str
+    | _ => pure [])
+  let preText : Str := pre.foldr (fun l acc => l ++ ['\n', '\n'] ++ acc) []
   let run (dflt : Bool) : String :=
     let pcfg : PCfg :=
       { regexValid := fun s => (lookup2 valid s).getD dflt, fromChar := ColT.fromCharDefault }
@@ -334,7 +340,12 @@ def opUpdateWith (format noSnap : Bool) : Rd String := do
       let E := dbEnv db (fun _ s => .ok s) rm
       let cfg : RCfg := { labels := labels, strictCols := strict }
       let uc : UCfg := { sep := sep, strictCols := strict, regexMatch := rm }
-      let w0 : World DbState := { db := {}, threshold := threshold }
+      let w00 : World DbState := { db := {}, threshold := threshold }
+      -- what the earlier script left behind (sort mode, result mode, threshold) is in force
+      let w0 : World DbState :=
+        match parse pcfg preText with
+        | .ok precs => { (runMulti E cfg w00 precs).1 with trace := [] }
+        | .error _ => w00
       let fin := updateFile E cfg uc format w0 root recs
       if fin.crashed then "panic" else
       let pres := prefixesBeforeRuns fin.evs
